@@ -12,7 +12,8 @@ import (
 )
 
 func init() {
-	register("C03", func(e *Env) { serveLoop(e, "C03") }, c03Limit("C03.limit"), c03Index)
+	// C08.range is shared: an out-of-box range makes the file handler panic in AppendUint
+	register("C03", func(e *Env) { serveLoop(e, "C03") }, c03Limit("C03.limit"), c03Index, c08Range, c03HexWidth)
 }
 
 const pkgErrs = Mod + "/pkg/common/errors"
